@@ -497,6 +497,10 @@ impl Drop for Driver {
         for entry in cqueue {
             match entry.user_data() {
                 Self::CANCEL | Self::NOTIFY => {}
+                // An intermediate CQE of a multishot / zero-copy op does not give
+                // the key back: the op is still in flight, so the key stays in
+                // `in_flight` and is freed below, after the ring is closed.
+                _ if more(entry.flags()) => {}
                 key => {
                     self.in_flight.remove(&(key as usize));
                     drop(unsafe { ErasedKey::from_raw(key as _) });
